@@ -137,7 +137,7 @@ fn main() {
         std::process::exit(3);
     }
     let _ = mb2_model::panics::catch(mb2_model::warm::warmup);
-    let mut g = Guarded::new(2 << 20);
+    let mut g = Guarded::new(8 << 20);
     let stdin = std::io::stdin();
     let stdout = std::io::stdout();
     let mut out = stdout.lock();
